@@ -65,7 +65,7 @@ PROPS = {
                 "every crash point of the armed window (before a write transaction, before commit, after commit before the notification, between the "
                 "AfterCommit hooks - for admission, retry bookkeeping and completion writes alike) is fired once in turn, each followed by a restart; "
                 "sampled phase: seeded histories, schedules, fault subsets (crash points, KV errors in the admission path, restarts at arbitrary scheduler "
-                "steps). Non-trivial: at least one receiver call and one fault or non-FIFO decision; distinct = (case, crash point) signatures plus trace hashes.",
+                "steps). Non-trivial: at least one receiver call and one fault or non-FIFO decision; distinct = (case, crash point) signatures plus trace hashes. One run in three (default scenario) admits a private transaction without payload after the faults and writes its payload later (new content or the content of an earlier transaction).",
         "invariants": ["C14.admitted-only", "C14.at-least-once", "C14.failed-visible", "C14.no-redelivery", "C14.backoff", "C14.replay-at-start", "C14.budget"],
         "assumptions": KV_ASSUME + ["storage errors are injected in the admission path only; the fault model of delivery is the process stop and the subscriber's own behaviour",
                                     "liveness clauses are evaluated 2 virtual hours after faults stop (10 retries take about 17 virtual minutes)"],
@@ -86,7 +86,7 @@ PROPS = {
         "rule": "each run: 2-4 nodes preloaded with their own valid DAGs on a shared root (disjoint branches, one side far behind, mixed, differences "
                 "larger than one IBLT decodes, multi-page), full mesh or chain, seeded gossip interval; a fault phase with per-message drop, duplication, "
                 "delay/reordering, send errors, stale replays of recorded envelopes, partitions/heals, node restarts, bursts and transaction creation, then a "
-                "fair suffix. Non-trivial: at least one fault or non-FIFO decision and a non-empty difference; distinct = distinct decision hashes.",
+                "fair suffix. Non-trivial: at least one fault or non-FIFO decision and a non-empty difference; distinct = distinct decision hashes. Multi-page shape, third variant: two or more pages shared by all nodes, then disjoint branches on a later page that exceed one IBLT.",
         "invariants": ["C07.monotone", "C07.sound", "C07.converge"],
         "assumptions": KV_ASSUME + ["the gRPC connection manager is a stub: links deliver in order unless a delay fault reorders them",
                                     "the convergence budget is 20 x (gossip interval + 30 s conversation validity) x (pages + transactions/300 + 1) x (nodes-1) of virtual time after faults stop; evidence reports the largest observed fraction of it"],
@@ -102,7 +102,7 @@ PROPS = {
                 "referencing all leaves, services, keys, 2-3 controllers, deactivation on a branch, equal signing times, clock gaps, foreign prevs) delivered "
                 "to the stores in causal order (twice), seeded permutations and reverse order, with duplicates, a stop/reopen at a seeded position, and in "
                 "one third of the runs KV operation errors, commit failures and crash points followed by redelivery. Non-trivial: more than two events; "
-                "distinct = distinct decision hashes.",
+                "distinct = distinct decision hashes. Observation as-of-later: every DID resolved as of a time after all its updates, deactivated documents not allowed.",
         "invariants": ["C10.replicas", "C10.stable", "C10.deactivated", "C10.resolved", "C10.counts"],
         "assumptions": KV_ASSUME + ["event sets are generated directly at the store's interface (what the ambassador hands over after its checks); the path through gossip is covered by C07/C09",
                                     "violations whose trigger is Go map iteration order replay probabilistically; the replay command repeats (bounded) until the first reproduction"],
@@ -211,7 +211,7 @@ PROPS = {
                 "(IPv4 / IPv6 literal, user-info, encoded slash / query / fragment in the host) resolved against a scripted server behaviour (correct document, "
                 "other id, redirect to another host whose document claims the identifier, redirect to http, redirect on the same host, html content type, 500, "
                 "404); every outbound request is recorded and judged; then the node's own DID (zero requests), a DID of the other node, and deactivation. "
-                "Distinct = distinct case lists; 'measurements' counts each (shape, server behaviour) pair.",
+                "Distinct = distinct case lists; 'measurements' counts each (shape, server behaviour) pair. Shape encoded-slash-in-segment is judged on the escaped request path.",
         "invariants": ["C18.origin", "C18.binding", "C18.local", "C18.deactivated"],
         "assumptions": ["did:jwk / did:key purity and the DID-URL round-trip law are pure functions and are not claimed",
                         "a redirect on the same host over https is not counted as leaving the identifier's origin"],
@@ -240,7 +240,7 @@ PROPS = {
         "rule": "each run: 1-3 private transactions with seeded participant lists (including lists the creator is not on), created on seeded nodes; the scripted peer "
                 "appears to each node as anonymous, authenticated-but-unlisted, or claiming a listed DID with a foreign / no certificate, and sends payload, list, range "
                 "and state queries for every private transaction, as do honest unlisted nodes; unsolicited payloads with mismatching data and for unknown transactions "
-                "are pushed. Every envelope handed to Send on any node is scanned for the private payload bytes. Distinct = (participant lists, identities) signatures.",
+                "are pushed. Every envelope handed to Send on any node is scanned for the private payload bytes. Distinct = (participant lists, identities) signatures. The scripted peer answers a list query in two messages in half of the runs: the second repeats the transactions with bytes that do not hash to the declared payload hash; stored bytes are compared with the hash they are stored under.",
         "invariants": ["C15.leak", "C15.store"],
         "assumptions": ["the handshake inside the real gRPC connection manager is not run, only the authenticator it calls; a failed authentication is modelled as an anonymous peer"],
         "probes_expected": ["listed-participant-received-payload", "authentication-refused", "participant-without-key-agreement-key"],
@@ -256,7 +256,7 @@ PROPS = {
                 "with a seeded subset of HTTP, SQL and KV error faults enabled, because error paths are where a key would be logged. At the end every private key in the nodes' key "
                 "store directories is parsed and encoded (scalar/exponent/primes as hex, HEX, base64, base64url, raw, decimal; PKCS#8 PEM body lines; DER tail; SEC1) and every "
                 "monitored channel is searched: HTTP requests and responses, API responses to the workload, peer-to-peer envelopes, log lines (debug level), audit log, every SQL "
-                "row, every session-store write, every file under the data directory outside the key store. Distinct = distinct decision hashes.",
+                "row, every session-store write, every file under the data directory outside the key store. Distinct = distinct decision hashes. Half of the runs link a key id to another key after it was used (Crypto.Link) and check signatures against what the key store then publishes.",
         "invariants": ["C03.canary", "C03.kid", "C03.namespace", "C03.jwk-header"],
         "assumptions": ["only the file-system key store backend runs (Vault and Azure backends need their servers)",
                         "a key leaked in a transformed form that is none of the searched encodings (e.g. encrypted, split, or re-encoded with another alphabet) is not seen"],
@@ -292,7 +292,7 @@ PROPS = {
                 "(creation, service change, key added, old key removed, controller set / dropped, update by the controller's key, deactivation) or an attack that the DAG "
                 "layer may admit but the VDR must refuse (identifier not the thumbprint of the embedded key; signed by a non-controller's key, by an assertion-only key, "
                 "by a removed key, by a deactivated controller's key; documents breaking each listed method rule), with node restarts at seeded points. Ground truth per "
-                "DID: versions, controllers, capabilityInvocation keys. Distinct = distinct decision hashes; 'measurements' counts each event kind.",
+                "DID: versions, controllers, capabilityInvocation keys. Distinct = distinct decision hashes; 'measurements' counts each event kind. Invalid documents also: verification method embedded in capabilityInvocation with a foreign / non-thumbprint id; an existing method id kept with another key under it.",
         "invariants": ["C09.authorised", "C09.keys", "C09.no-effect"],
         "assumptions": ["controller chains and cycles are not generated (nested controllers have depth and active-controller rules this model does not mirror)",
                         "honest updates are linear (they succeed the latest version); accepted forks are C10's subject",
